@@ -22,7 +22,8 @@ type fakeRes struct {
 	short     bool
 	reads     int
 	writes    int
-	preClosed bool // reports "use of closed" on every call, as an already-closed descriptor does
+	preClosed bool          // reports "use of closed" on every call, as an already-closed descriptor does
+	stalled   chan struct{} // non-nil: a Write stays in flight until the resource is closed (the peer does not drain)
 }
 
 var errFakeClose = errors.New("fake: close failed")
@@ -57,6 +58,11 @@ func (f *fakeRes) Write(p []byte) (int, error) {
 	if f.preClosed || f.closes > 0 {
 		return 0, errors.New("write fake: use of closed network connection")
 	}
+	if f.stalled != nil {
+		// the peer does not drain: the write stays in flight until the resource is closed
+		<-f.stalled
+		return 0, errors.New("write fake: use of closed network connection")
+	}
 	if f.ioFail {
 		return 0, errFakeIO
 	}
@@ -68,6 +74,9 @@ func (f *fakeRes) Write(p []byte) (int, error) {
 
 func (f *fakeRes) Close() error {
 	f.closes++
+	if f.stalled != nil && f.closes == 1 {
+		close(f.stalled)
+	}
 	if f.preClosed {
 		return errors.New("close fake: use of closed network connection")
 	}
@@ -115,7 +124,9 @@ type c19borrowed struct {
 
 func (g *c19gen) newFake() *fakeRes {
 	f := &fakeRes{name: fmt.Sprintf("f%d", len(g.fakes)+len(g.extras))}
-	switch g.c.Pick(8, "fake-fault") {
+	switch g.c.Pick(9, "fake-fault") {
+	case 8:
+		f.stalled = make(chan struct{})
 	case 1:
 		f.closeFail = 1
 	case 2:
@@ -313,7 +324,21 @@ func scenarioC19(r *Run) {
 		}
 		return true
 	}
-	buf := make([]byte, 8)
+	// Every call runs on its own goroutine and is given five simulated seconds: a Write against a stalled
+	// peer legitimately stays in flight; a Close or a status query never may (closing is what ends it).
+	call := func(f func()) bool {
+		done := make(chan struct{})
+		go func() {
+			defer close(done)
+			f()
+		}()
+		select {
+		case <-done:
+			return true
+		case <-time.After(5 * time.Second):
+			return false
+		}
+	}
 	for i := 0; i < nops && !r.Failed(); i++ {
 		if len(g.borrowed) > 0 && c.Chance(1, 5, "owner-closes-lent-connection") {
 			// the owner of a borrowed connection closes it: none of the composition's business, its own
@@ -350,13 +375,18 @@ func scenarioC19(r *Run) {
 				}
 			}
 			var err error
-			switch op {
-			case "Close":
-				err = cl.Close()
-			case "TryClose":
-				streams.TryClose(cl)
-			default:
-				err = streams.LogClose(cl)
+			if !call(func() {
+				switch op {
+				case "Close":
+					err = cl.Close()
+				case "TryClose":
+					streams.TryClose(cl)
+				default:
+					err = streams.LogClose(cl)
+				}
+			}) {
+				r.FailSig("close-does-not-return", "ctor="+n.ctor, "%s had not returned after 5 s (a Write may be in flight against a peer that does not drain: closing is what must end it); composition %s; history %v", label, root.path(), hist)
+				return
 			}
 			sn.closedOn = true
 			n.closedOn = true
@@ -384,7 +414,11 @@ func scenarioC19(r *Run) {
 			if !ok {
 				continue
 			}
-			got := q.Closed()
+			got := false
+			if !call(func() { got = q.Closed() }) {
+				r.FailSig("close-does-not-return", "ctor="+n.ctor, "%s had not returned after 5 s; composition %s; history %v", label, root.path(), hist)
+				return
+			}
 			if sn.closedOn && !got {
 				r.FailSig("closed-status-false-after-close", "ctor="+n.ctor, "%s answers false after Close on that wrapper; composition %s; history %v", label, root.path(), hist)
 				return
@@ -396,11 +430,14 @@ func scenarioC19(r *Run) {
 			r.Count("status_checked")
 		case "Read":
 			if rd, ok := n.val.(io.Reader); ok {
-				rd.Read(buf)
+				rbuf := make([]byte, 8)
+				call(func() { rd.Read(rbuf) })
 			}
 		case "Write":
 			if wr, ok := n.val.(io.Writer); ok {
-				wr.Write(buf[:3])
+				if !call(func() { wr.Write([]byte{1, 2, 3}) }) {
+					r.Count("writes_left_in_flight")
+				}
 			}
 		case "String":
 			if st, ok := n.val.(fmt.Stringer); ok {
